@@ -515,7 +515,7 @@ func vfGenSigCfg(rt *rapid.T) vfSigCfg {
 	return c
 }
 
-// vfGenSigPlan draws what the client does. kind: valid | unknown-key | wrong-secret | stale | future.
+// vfGenSigPlan draws what the client does. kind: valid | unknown-key | wrong-secret | stale | future | future-beyond-ttl.
 func vfGenSigPlan(rt *rapid.T, c vfSigCfg, kind string, presign bool) (vfSigPlan, string) {
 	k := c.Keys[rapid.IntRange(0, len(c.Keys)-1).Draw(rt, "keyIdx")]
 	p := vfSigPlan{KeyID: k.ID, Secret: k.Secret, Presign: presign}
@@ -564,8 +564,19 @@ func vfGenSigPlan(rt *rapid.T, c vfSigCfg, kind string, presign bool) (vfSigPlan
 		}
 		limit := bound + margin
 		p.Age = limit + rapid.SampledFrom([]time.Duration{5 * time.Second, time.Hour, 100 * time.Hour}).Draw(rt, "staleBy")
+	case "future-beyond-ttl":
+		// post-dated by more than the TTL: outside the TTL (with TTL 0 there is no such thing)
+		if c.TTL == 0 {
+			kind = "future"
+			p.Age = -rapid.SampledFrom([]time.Duration{20 * time.Second, time.Hour, 100 * time.Hour}).Draw(rt, "futureBy")
+			break
+		}
+		p.Age = -(c.TTL + vfFutureMargin + rapid.SampledFrom([]time.Duration{0, time.Hour, 100 * time.Hour, 9000 * time.Hour}).Draw(rt, "beyondTTLBy"))
 	case "future":
 		p.Age = -rapid.SampledFrom([]time.Duration{20 * time.Second, time.Hour, 100 * time.Hour}).Draw(rt, "futureBy")
+		if c.TTL > 0 && -p.Age >= c.TTL {
+			p.Age = -c.TTL / 2 // keep this class inside the TTL (left open); beyond it has its own class
+		}
 	default:
 		kind = "valid"
 		p.Age = fresh()
